@@ -154,7 +154,7 @@ func (rt readTxn) ID() string {
 // Create adds a new value to the store.
 //
 // If a value already exists for the resource ID, id, an error is returned.
-func (wt writeTxn) Create(v interface{}) error {
+func (wt *writeTxn) Create(v interface{}) error {
 	if wt.id == "" {
 		if wt.st.NewID == nil {
 			return errMissingID
